@@ -111,6 +111,15 @@ class UnquoteModel(object):
                     elts = n.targets[0].elts
                     if len(elts) == 2 and isinstance(elts[1], ast.Starred) and isinstance(elts[1].value, ast.Name) and elts[1].value.id == it.id:
                         ok = True
+                # rest := list(pieces[1:])   (a `case [head, *rest]` pattern read as its tests and bindings)
+                if isinstance(n, (ast.NamedExpr, ast.Assign)):
+                    tgt = n.target if isinstance(n, ast.NamedExpr) else n.targets[0]
+                    val = n.value
+                    if isinstance(tgt, ast.Name) and tgt.id == it.id:
+                        if isinstance(val, ast.Call) and isinstance(val.func, ast.Name) and val.func.id in ("list", "tuple") and len(val.args) == 1:
+                            val = val.args[0]
+                        if isinstance(val, ast.Subscript) and isinstance(val.slice, ast.Slice) and isinstance(val.slice.lower, ast.Constant) and val.slice.lower.value == 1 and val.slice.upper is None:
+                            ok = True
         return ok
 
     def _walk(self, stmts, conds):
